@@ -59,10 +59,42 @@ func genCase(t *rapid.T) Case {
 	g := gen.NewHistoryGen(t, schema, c.H.MaxPointSize, ho)
 	dim, metric := gen.VectorParams(schema[gen.PVamana])
 	n := rapid.IntRange(2, maxSteps).Draw(t, "nsteps")
+	// shape "late vectors": points stored without the vector (their node ids lie above everything the graph
+	// has seen), one update batch that gives several of them their first vector in an arbitrary order of
+	// ids, then the deletion of some of them
+	late := rapid.IntRange(0, 3).Draw(t, "lateVectors") == 0
+	var lateIds []uuid.UUID
+	if late {
+		n = max(n, 4)
+	}
 	for i := 0; i < n; i++ {
 		var st gen.Step
 		k := rapid.IntRange(0, 9).Draw(t, fmt.Sprintf("kind%d", i))
 		switch {
+		case late && i == 1:
+			st = gen.Step{Kind: "insert", Note: "late vectors: stored without the vector"}
+			for _, id := range g.Pool {
+				if _, stored := g.M.Docs[id]; !stored && len(lateIds) < 6 {
+					lateIds = append(lateIds, id)
+				}
+			}
+			lateIds = lateIds[:min(len(lateIds), rapid.IntRange(2, 6).Draw(t, "nlate"))]
+			for _, id := range lateIds {
+				st.Points = append(st.Points, model.Point{Id: id, Doc: model.Doc{"label": "late"}})
+			}
+			g.M.Insert(st.Points)
+		case late && i == 2 && len(lateIds) > 0:
+			st = gen.Step{Kind: "update", Note: "late vectors: first vector, any order"}
+			for _, j := range rapid.Permutation(seqInts(len(lateIds))).Draw(t, "lateOrder") {
+				st.Points = append(st.Points, model.Point{Id: lateIds[j], Doc: model.Doc{gen.PVamana: genClustered(t, fmt.Sprintf("latev%d", j), dim, metric)}})
+			}
+			g.M.Update(st.Points)
+		case late && i == 3 && len(lateIds) > 0:
+			st = gen.Step{Kind: "delete", Note: "late vectors: delete"}
+			for _, j := range rapid.Permutation(seqInts(len(lateIds))).Draw(t, "lateDel")[:rapid.IntRange(1, len(lateIds)).Draw(t, "nlateDel")] {
+				st.Ids = append(st.Ids, lateIds[j])
+			}
+			g.M.Delete(st.Ids)
 		case i == 0 || k <= 2:
 			// a big insert with clustered vectors
 			st = g.Insert()
@@ -96,6 +128,14 @@ func genCase(t *rapid.T) Case {
 		c.Queries = append(c.Queries, qs)
 	}
 	return c
+}
+
+func seqInts(n int) []int {
+	r := make([]int, n)
+	for i := range r {
+		r[i] = i
+	}
+	return r
 }
 
 func neighbourhoodDelete(t *rapid.T, label string, g *gen.HistoryGen) gen.Step {
